@@ -173,6 +173,12 @@ def run(facts, rep, ctx):
                             bad.append(("accepts-invalid", S, a, m, "(for an archive whose annotation map has an entry at that address: the lookup is answered before the range check)"))
                         elif oks:
                             undecided.add("%s: a success path could not be excluded at size=%s address=%s (a condition on it is not evaluable)" % (short, S, hexs(a)))
+                        live = [o for o in outs if not o["panic"]]
+                        if live and all(any(data_access_events(p) for p in o["paths"]) for o in live):
+                            # whichever of the consistent paths is taken, the data is touched for a range that
+                            # is not inside it: no error path free of an access exists at this class
+                            bad.append(("access-before-error", S, a, m, "(every path consistent with this class touches the data)"))
+                            continue
                         for o in errs:
                             if any(data_access_events(p) for p in o["paths"]):
                                 if o["definite"]:
